@@ -65,7 +65,11 @@ def make_content(case):
     for i, w in enumerate(ws[:case['nlines']]):
         pieces.append(w)
         pieces.append(seps[i % len(seps)])
-    return case['head'] + ''.join(pieces) + case['tail']
+    body = ''.join(pieces)
+    rep = case.get('repeat', 1)
+    if rep > 1 and dsl.unbounded_depth(case['tree']) == 0 and dsl.size(case['tree']) <= 6:          # files larger than the usual I/O buffers (8 KiB, 64 KiB) and with thousands of lines
+        body = (body + '\n') * rep
+    return case['head'] + body + case['tail']
 
 
 BAD_SIZES = {'float': 1.5, 'str': '2', 'none': None, 'bool': True, 'neg': -1, 'neg_big': -100}
@@ -169,6 +173,7 @@ def strategy(spec, ctx):
         'count': st.integers(0, 3),
         'bad': st.sampled_from(sorted(BAD_SIZES)),
         'state': st.sampled_from(['plain', 'plain', 'compile', 'gcp_keep', 'gcp_discard']),
+        'repeat': st.sampled_from([1, 1, 1, 1, 1, 1, 1, 1, 1, 40, 700, 3000]),
     })
 
 
